@@ -275,7 +275,7 @@ func genAccept(c *core.Ctx) {
 	}
 	rec(nil, maxLen)
 	// random longer lists over the whole catalogue
-	nrand := 1200
+	nrand := 900
 	if !c.Quick() {
 		nrand = 12000
 	}
